@@ -1,31 +1,35 @@
 #!/bin/bash
-# tools/seeded_matrix.sh  — runs every registered quick check against every seeded change (applied to /repo,
-# undone straight afterwards) and writes seeded/MATRIX.json: which checks catch which changes.
+# tools/seeded_matrix.sh — informational: which quick checks fire for which seeded change.
+# Works on PRIVATE copies (/tmp/mx/repo = git worktree of /repo's HEAD, /tmp/mx/sim = copy of /verif/sim with
+# its path dependencies pointed there) so that /repo and /verif/sim stay usable meanwhile. egsim is
+# deterministic, so the verdicts equal those of the registered checks run against /repo with the patch applied
+# (which tools/seeded_verify.sh does for the change's own property). Writes seeded/MATRIX.json.
 set -u
-cd /verif
 export CARGO_NET_OFFLINE=true
-props="C01 C03 C04 C09 C10 C20"
-echo "{" > seeded/MATRIX.json.tmp
-first=1
-for d in seeded/*/; do
+mx=/tmp/mx; props="C01 C03 C04 C09 C10 C20"
+rm -rf $mx/sim $mx/replays $mx/evidence; mkdir -p $mx
+[ -d $mx/repo ] || git -C /repo worktree add -q --detach $mx/repo HEAD || exit 2
+git -C $mx/repo checkout -q --detach "$(git -C /repo rev-parse HEAD)"; git -C $mx/repo checkout -q -- .
+rsync -a --exclude target /verif/sim/ $mx/sim/
+sed -i "s|path = \"/repo/core\"|path = \"$mx/repo/core\"|; s|path = \"/repo\"|path = \"$mx/repo\"|" $mx/sim/Cargo.toml
+cp /verif/known_findings.json $mx/
+export EGSIM_VERIF_DIR=$mx
+out=/verif/seeded/MATRIX.json.tmp; echo "{" > $out; first=1
+for d in /verif/seeded/*/; do
   id=$(basename "$d"); [ -f "$d/patch.diff" ] || continue
-  if ! git -C /repo diff --quiet; then echo "/repo dirty"; exit 2; fi
-  git -C /repo apply "/verif/$d/patch.diff" || { echo "cannot apply $id"; continue; }
+  git -C $mx/repo apply "$d/patch.diff" || { echo "cannot apply $id"; continue; }
+  if ! (cd $mx/sim && cargo build --release --offline >/dev/null 2>&1); then echo "$id: build failed"; git -C $mx/repo checkout -q -- .; continue; fi
   row=""
   for p in $props; do
-    out=$(./bin/check "$p" quick 2>&1); rc=$?
-    cls=$(echo "$out" | sed -n 's/^violation in run [0-9]*: \[\([a-z_]*\)\].*/\1/p' | head -1)
-    rm -f replays/*.json
-    row="$row \"$p\": {\"exit\": $rc, \"class\": \"$cls\"},"
+    o=$(cd $mx/sim && ./target/release/egsim check "$p" --tier quick --no-evidence 2>&1); rc=$?
+    cls=$(echo "$o" | sed -n 's/^violation in run [0-9]*: \[\([a-z_]*\)\].*/\1/p' | head -1)
+    run=$(echo "$o" | sed -n 's/^violation in run \([0-9]*\):.*/\1/p' | head -1)
+    row="$row \"$p\": {\"exit\": $rc, \"class\": \"$cls\", \"first_failing_run\": ${run:-null}},"
   done
-  git -C /repo checkout -- .
-  [ $first -eq 1 ] || echo "," >> seeded/MATRIX.json.tmp
-  first=0
-  echo " \"$id\": {${row%,} }" >> seeded/MATRIX.json.tmp
-  echo "$id done: $row"
+  git -C $mx/repo checkout -q -- .
+  [ $first -eq 1 ] || echo "," >> $out; first=0
+  echo " \"$id\": {${row%,} }" >> $out
+  echo "$id: $row"
 done
-echo "}" >> seeded/MATRIX.json.tmp
-mv seeded/MATRIX.json.tmp seeded/MATRIX.json
-# leave evidence files as produced by a clean run
-for p in $props; do ./bin/check "$p" quick >/dev/null 2>&1; done
+echo "}" >> $out; mv $out /verif/seeded/MATRIX.json
 echo MATRIX-COMPLETE
